@@ -8,7 +8,9 @@
 // Kanata, Cfg and CfgOptions are sliced (R7) to the fields the function moves; their types are opaque.
 
 //@ raw
+#[verifier::external_body]
 pub struct VerifError { verif_opaque: u8 }
+#[verifier::external_body]
 pub struct VerifParseError { verif_opaque: u8 }
 type Result<T> = core::result::Result<T, VerifError>;
 // R13: bail!("..") -> return Err(verif_bail());
@@ -16,14 +18,23 @@ type Result<T> = core::result::Result<T, VerifError>;
 fn verif_bail() -> VerifError { unimplemented!() }
 
 // opaque configuration payloads: only moved from the parsed Cfg into Kanata
+#[verifier::external_body]
 pub struct KbdOut { verif_opaque: u8 }
+#[verifier::external_body]
 pub struct PathBuf { verif_opaque: u8 }
+#[verifier::external_body]
 pub struct KeyOutputs { verif_opaque: u8 }
+#[verifier::external_body]
 pub struct LayerInfo { verif_opaque: u8 }
+#[verifier::external_body]
 pub struct KeySeqsToFKeys { verif_opaque: u8 }
+#[verifier::external_body]
 pub struct Overrides { verif_opaque: u8 }
+#[verifier::external_body]
 pub struct MappedKeys { verif_opaque: u8 }
+#[verifier::external_body]
 pub struct KeyRepeatSettings { verif_opaque: u8 }
+#[verifier::external_body]
 pub struct BLayout { verif_opaque: u8 }
 impl BLayout {
     pub uninterp spec fn cur_layer(&self) -> usize;
